@@ -98,6 +98,8 @@ nrestart_trimming = [0]
 nfailed_delete_wf = [0]
 nfailed_delete_notwf = [0]
 witness_seen = {}
+ndisc_states = [0]
+ndisc_cases = [0]
 
 
 def kt(k):
@@ -118,6 +120,26 @@ def snap_wf(snap):
             if o is None or kt(o[0:2]) != kt(v[0:2]):
                 return False
     return True
+
+
+def snap_coherent(snap):
+    """observable part of Spec.mem_coherent: pending / opened / Outgoing agree"""
+    pv = {kt(e[0]): e[1] for e in snap["p"]}
+    ov = {kt(e[0]): e[1] for e in snap["o"]}
+    for k, v in pv.items():
+        if kt(v[0:2]) != k:
+            return "pending[%s] holds circuit %s" % (k, v)
+        if v[2] is not None:
+            o = ov.get(kt(v[2]))
+            if o is None or kt(o[0:2]) != k:
+                return "circuit %s claims keystone %s which is not opened for it" % (k, v[2])
+    for ok, v in ov.items():
+        p = pv.get(kt(v[0:2]))
+        if p is None or p[2] is None or kt(p[2]) != ok:
+            return "opened[%s] -> %s is not the keystone of a pending circuit" % (ok, v[0:2])
+    if snap["np"] != len(snap["p"]) or snap["no"] != len(snap["o"]):
+        return "NumPending/NumOpen disagree with the lookups"
+    return None
 
 
 def single_ks(snap):
@@ -202,8 +224,25 @@ def predicate(case):
     # outgoing key (the link opens a circuit once, with a fresh htlc index); otherwise stray
     # keystones can exist on disk that the pre-restart memory does not show
     clean = True
+    # link/switch call discipline (Spec.call_disciplined / DisciplineProofs.seq_disciplined), evaluated
+    # on the implementation's own observations; while a single-thread history is disciplined
+    # the invariant of C07_discipline_invariant must hold in every state
+    disc = seq
     for n, st in enumerate(case["steps"]):
         i, o, snap = st["in"], st["out"], st["snap"]
+        if disc and i[0] == "call":
+            pvd = {kt(e[0]): e[1] for e in prev["p"]}
+            if i[2] == "open":
+                ins_ = [kt(x[0:2]) for x in i[3]]
+                outs__ = [kt(x[2:4]) for x in i[3]]
+                if (len(set(ins_)) != len(ins_) or len(set(outs__)) != len(outs__)
+                        or any(k not in pvd or pvd[k][2] is not None for k in ins_)):
+                    disc = False
+            elif i[2] == "delete":
+                if any(kt(k) in pvd and kt(k) not in responded for k in i[3]):
+                    disc = False
+        if disc and i[0] == "restart" and not (mem_is_disk and not calls):
+            disc = False
         if i[0] == "call":
             t, kind = i[1], i[2]
             info = {"kind": kind, "pre": prev, "in": i, "step": n}
@@ -232,6 +271,7 @@ def predicate(case):
             if kind == "delete":
                 rem = [kt(k) for k in i[3] if kt(k) in pend_keys(prev)]
                 info["removed"] = rem
+                info["removed_responded"] = [k for k in rem if k in responded]
                 for k in rem:
                     responded.discard(k)
                     addev.setdefault(k, []).append((n, "clear"))
@@ -277,6 +317,10 @@ def predicate(case):
                             responded.discard(k)
                         if o[0] == "commit" and o[1]:
                             fails.append(("C07_rollback", "step %d: failed commit still returned Adds" % n))
+                if info["kind"] == "delete" and info.get("ok") is False and seq:
+                    # the rollback restores the closing marks as well: the circuits are still
+                    # answered (a further settle/fail must be refused)
+                    responded.update(info.get("removed_responded", []))
                 # rollback: a failed transaction leaves every observable as before the call
                 if seq and info.get("ok") is False and info["kind"] == "delete":
                     # hypothesis wf_out of C07_rollback's DeleteCircuits clause, checked on the
@@ -339,7 +383,16 @@ def predicate(case):
                 addev[k].append((n, "clear"))
             calls.clear()
             mem_is_disk = True
+        if disc and not calls:
+            why = snap_coherent(snap)
+            ndisc_states[0] += 1
+            if why:
+                fails.append(("C07_discipline_invariant", "step %d: disciplined history reached an "
+                              "incoherent circuit map: %s" % (n, why)))
+                disc = False
         prev = snap
+    if disc:
+        ndisc_cases[0] += 1
     for k, evs in addev.items():
         last = None
         for tm, what in sorted(evs):
@@ -545,6 +598,8 @@ def run(ctx):
         "failed_deletes_with_wf_out_hypothesis": nfailed_delete_wf[0],
         "failed_deletes_without_wf_out": nfailed_delete_notwf[0],
         "witness_histories_on_real_code": witness_report(allrows),
+        "states_of_disciplined_prefixes_checked_coherent": ndisc_states[0],
+        "histories_disciplined_to_the_end": ndisc_cases[0],
     })
     ctx.assumptions += [
         "atomicity/durability of a kvdb transaction (bbolt) is assumed, not proved",
